@@ -48,6 +48,8 @@ var charsetTable = []charsetSpec{
 	{Name: "big5", Ref: []encoding.Encoding{traditionalchinese.Big5}, Texts: []string{txtHanT}, Multi: true},
 	{Name: "shift_jis", Ref: []encoding.Encoding{japanese.ShiftJIS}, Texts: []string{txtJa}, Multi: true},
 	{Name: "euc-jp", Ref: []encoding.Encoding{japanese.EUCJP}, Texts: []string{txtJa}, Multi: true},
+	// stateful: shift sequences ESC $ B / ESC ( B switch between ASCII and two-byte JIS X 0208
+	{Name: "iso-2022-jp", Ref: []encoding.Encoding{japanese.ISO2022JP}, Texts: []string{txtJa, "abc 日本語 def テキスト ghi 漢字 jkl"}, Multi: true},
 	{Name: "euc-kr", Ref: []encoding.Encoding{korean.EUCKR}, Texts: []string{txtKo}, Multi: true},
 	// WHATWG treats the iso-8859-1 label as windows-1252; both transcodings are accepted as "correct"
 	{Name: "iso-8859-1", Ref: []encoding.Encoding{charmap.Windows1252, charmap.ISO8859_1}, Texts: []string{txtLatin}},
@@ -122,6 +124,8 @@ const (
 	siteHdrUnk    site = "header-unknown" // unsupported charset label in the header (+ meta in the body)
 	siteHdrUTF8   site = "header-utf8"  // header says utf-8 (body may declare something else)
 	siteTextFirst site = "text-then-meta" // non-ASCII text (a title) BEFORE the meta declaration
+	siteNoDecl    site = "metas-no-declaration" // several meta tags, none of which declares a charset (WHATWG prescan)
+	sitePragmaThenMeta site = "pragma-then-real-meta" // a charset-less pragma, junk metas, then a real declaration
 )
 
 type doc struct {
@@ -158,6 +162,30 @@ func fillText(cs *charsetSpec, text string, head []byte, target int, cutMid bool
 	out := append([]byte(nil), head...)
 	runes := []rune(text)
 	if len(runes) == 0 {
+		return out, true
+	}
+	if cs.Name == "iso-2022-jp" {
+		// stateful: encode the running text in one go (long two-byte runs between the shift sequences),
+		// then cut at the target - possibly inside a run, as a truncated document would be
+		s := ""
+		for len(s) < 2*target+len(text) {
+			s += text
+		}
+		enc, ok := cs.encodeText(s)
+		if !ok {
+			return nil, false
+		}
+		if n := target - len(out); n > 0 {
+			if n > len(enc) {
+				n = len(enc)
+			}
+			if !cutMid { // end on a complete shift-back if one is near
+				if i := bytes.LastIndex(enc[:n], []byte("\x1b(B")); i > 0 {
+					n = i + 3
+				}
+			}
+			out = append(out, enc[:n]...)
+		}
 		return out, true
 	}
 	i := 0
@@ -222,6 +250,33 @@ func makeDoc(r *hk.Rand, s site, cs *charsetSpec, target int) (*doc, bool) {
 	case siteTextFirst:
 		d.CT = "text/html"
 		head = "<html><head><title>\x00TITLE\x00</title>" + metaTag(siteMeta, cs.Name, r) + "</head><body>"
+		d.Declared = []string{cs.Name}
+	case siteNoDecl:
+		// WHATWG prescan: a content= attribute only counts together with http-equiv=content-type ON THE SAME
+		// TAG; a charset= attribute needs no pragma; everything else is not a declaration
+		d.CT = "text/html"
+		pool := []string{
+			`<meta http-equiv="Content-Type" content="text/html">`,
+			`<meta name="description" content="all about charset=` + other + ` and friends">`,
+			`<meta name="keywords" content="text/html; charset=` + other + `">`,
+			`<meta http-equiv="refresh" content="5; url=/x?charset=` + other + `">`,
+			`<meta property="og:title" content="charset = ` + other + `">`,
+			`<meta http-equiv="X-UA-Compatible" content="IE=edge">`,
+			`<meta name="viewport" content="width=device-width">`,
+			`<meta http-equiv="Content-Type">`,
+			`<meta content="charset=">`,
+			`<metadata charset="` + other + `">`,
+			`<!-- <meta charset="` + other + `"> -->`,
+		}
+		head = "<html><head>" + pool[0]
+		for i, n := 0, 2+r.Intn(5); i < n; i++ {
+			head += hk.Pick(r, pool)
+		}
+		head += "</head><body>"
+	case sitePragmaThenMeta:
+		d.CT = "text/html"
+		head = `<html><head><meta http-equiv="Content-Type" content="text/html"><meta name="description" content="x">` +
+			metaTag(hk.Pick(r, []site{siteMeta, siteHTTPEquiv}), cs.Name, r) + "</head><body>"
 		d.Declared = []string{cs.Name}
 	case siteBOM:
 		d.CT = base
